@@ -2,6 +2,7 @@ import Driver.Util
 import KdVerif.Model.PyIR
 import KdVerif.Gen.PyIR
 import KdVerif.Spec.PyIRExpected
+import KdVerif.Spec.PyIRTpExpected
 import KdVerif.Model.PyIRCs
 import KdVerif.Gen.PyIRCs
 import KdVerif.Spec.PyIRCsExpected
@@ -75,9 +76,84 @@ def cmdCheck : Cmd := fun _ =>
     (if g.feedEnd = x.feedEnd then [] else ["_feed_end_event"]) ++
     (if g.feedSingle = x.feedSingle then [] else ["_feed_single_event"]) ++
     (if g.actions = x.actions then [] else ["qualifiers_actions"]) ++
+    (if Gen.PyIR.feedGenerator = KdVerif.PyIRTp.Expected.feedGenerator then [] else ["feed_generator"]) ++
+    (if Gen.PyIR.init.sets = KdVerif.PyIRTp.Expected.init.sets ∧
+        Gen.PyIR.init.params = KdVerif.PyIRTp.Expected.init.params then [] else ["__init__"]) ++
+    (if Gen.PyIR.init.updates = KdVerif.PyIRTp.Expected.init.updates then [] else ["__init__-registry"]) ++
     (if Gen.PyIR.notes.isEmpty then [] else ["notes"])
   if d.isEmpty then "same" else
     "differs " ++ ",".intercalate d ++ (if unsupported then " unsupported" else "")
+
+/-! ### `TracesParser.feed_generator` and `TracesParser.__init__` (`Model/PyIRTp`) -/
+
+def genUnsupported : Bool := unsupported || Gen.PyIR.feedGenerator.body.hasUnsupported
+
+def parseErr (s : String) : Option (Option PyErr) :=
+  if s = "-" then some none
+  else ([PyErr.eof, .keyError, .valueError, .indexError, .structError, .streamError, .typeError].find? (·.name == s)).map some
+
+/-- one window table, sorted by thread and code: `tid.eid=ts,ts/…` (`-` = empty) -/
+def showTbl (t : Tbl) : String :=
+  let rows : List (Nat × Nat × List Kevent) := t.flatMap fun p => p.2.map fun q => (p.1, q.1, q.2)
+  let sorted := rows.toArray.qsort (fun a b => a.1 < b.1 || (a.1 == b.1 && a.2.1 < b.2.1)) |>.toList
+  if sorted.isEmpty then "-" else
+    "/".intercalate (sorted.map fun r => s!"{r.1}.{r.2.1}=" ++ natListC (r.2.2.map (·.timestamp)))
+
+def showYield : Val → String
+  | .result _ w => natListC (w.map (·.timestamp))
+  | _ => "?"
+
+def showYields (o : List Val) : String := if o.isEmpty then "-" else ";".intercalate (o.map showYield)
+
+/-- `pyirgen <codes> <err|-> <k> <record hex>…` : the first `k` records are fed one by one through the GENERATED `feed`
+    (answers dropped), the others through the GENERATED `feed_generator` as a generator that ends with the exception `err`;
+    answer: `ok <windows yielded> <on_going_events> <on_going_traces>` or `err <E> after <windows yielded>`. -/
+def cmdPyIRGen : Cmd
+  | codes :: err :: k :: recs =>
+    if genUnsupported then "unsupported" else
+    match parseCodes codes, parseErr err, k.toNat?, parseRecs recs with
+    | some cs, some er, some k, some es =>
+      match runFrom Gen.PyIR.prog (cfgOf cs) World.empty (es.take k) with
+      | .error x => "err " ++ x.name ++ " before"
+      | .ok (_, w) =>
+        match KdVerif.PyIRTp.runFeedGen Gen.PyIR.prog Gen.PyIR.feedGenerator (cfgOf cs) (es.drop k) er w with
+        | (o, .ok w') => "ok " ++ showYields o ++ " " ++ showTbl w'.events ++ " " ++ showTbl w'.traces
+        | (o, .error x) => "err " ++ x.name ++ " after " ++ showYields o
+    | _, _, _, _ => "bad-op"
+  | _ => "bad-op"
+
+def showRef : KdVerif.PyIRTp.Ref → String
+  | .arg k => s!"arg{k}"
+  | .fresh n => s!"new{n}"
+
+def attrName : KdVerif.PyIRTp.IAttr → String
+  | .traceCodes => "trace_codes" | .onGoingEvents => "on_going_events" | .onGoingTraces => "on_going_traces"
+  | .globalStrings => "global_strings" | .threadsPids => "threads_pids" | .pidsNames => "pids_names"
+  | .tidsNames => "tids_names" | .lastDataNewthread => "last_data_newthread" | .lastDataExec => "last_data_exec"
+  | .handlers => "handlers"
+
+def familyName : KdVerif.PyIRTp.Family → String
+  | .bsd => "bsd" | .dyld => "dyld" | .fsystem => "fsystem" | .mach => "mach" | .perf => "perf" | .trace => "trace"
+  | .turnstile => "turnstile"
+
+/-- `pyirinit <nargs>` : the GENERATED `__init__` run on `nargs` arguments: every attribute with the object it is bound to
+    (`arg<k>` = the caller's k-th argument itself, `new<n>` = the n-th dict the constructor made, empty; `unbound`), sorted
+    by attribute name, then the families merged into `self.handlers`, in order. -/
+def cmdPyIRInit : Cmd
+  | [n] =>
+    if Gen.PyIR.init.hasUnsupported || !Gen.PyIR.notes.isEmpty then "unsupported" else
+    match n.toNat? with
+    | some n =>
+      match KdVerif.PyIRTp.runInit Gen.PyIR.init n with
+      | .error x => "err " ++ x.name
+      | .ok o =>
+        let rows := KdVerif.PyIRTp.IAttr.all.map fun a =>
+          (attrName a, match o.get a with | some r => showRef r | none => "unbound")
+        let sorted := rows.toArray.qsort (fun a b => a.1 < b.1) |>.toList
+        "ok " ++ ",".intercalate (sorted.map fun r => r.1 ++ "=" ++ r.2) ++ " " ++
+          (if o.updates.isEmpty then "-" else ",".intercalate (o.updates.map familyName))
+    | none => "bad-op"
+  | _ => "bad-op"
 
 /-! ### callstacks_parser.py, PyKdebugParser.callstacks -/
 
@@ -235,7 +311,7 @@ def cmdCsCheck : Cmd := fun _ =>
   if d.isEmpty then "same" else "differs " ++ ",".intercalate d ++ (if csUnsupported then " unsupported" else "")
 
 def commands : List (String × Cmd) :=
-  [("pyir", cmdPyIR), ("pyircheck", cmdCheck), ("csir", cmdCsIR), ("csircheck", cmdCsCheck), ("csfeed", cmdCsFeed),
+  [("pyir", cmdPyIR), ("pyircheck", cmdCheck), ("pyirgen", cmdPyIRGen), ("pyirinit", cmdPyIRInit), ("csir", cmdCsIR), ("csircheck", cmdCsCheck), ("csfeed", cmdCsFeed),
    ("csreq", cmdCsReq), ("csgen", cmdCsGen)]
 
 end Driver.PyIR
